@@ -55,11 +55,27 @@ PlanFor(s, v, p) ==
           [] p = "last"   -> n1 \o me
           [] p = "middle" -> n1 \o me \o n2
 
+\* position "aftercomplex": the keyword is the first simple keyword of its block but follows a block-valued item
+\* (one representative per complex shape the block type has) - the order separate_complex_types undoes
+WithComplex == FALSE          \* (cfg: CONSTANT WithComplex <- Yes)
+Yes == TRUE
+ComplexShapes == {"kv", "projection", "points", "pointslist", "block", "blocklist"}
+ComplexSlots(t) == {c \in SlotsBy[t] : c[3] \in ComplexShapes /\ ~(c[2] = "symbol" /\ c[4] = "symbol")}
+ComplexReps(t) == {c \in ComplexSlots(t) : c = CHOOSE x \in ComplexSlots(t) : x[3] = c[3]}
+ComplexValue(c) == CHOOSE v \in ProbeValues(c) : TRUE
+OneValue(s) == IF s[3] \in {"enum", "bool"} THEN {CHOOSE v \in ProbeValues(s) : v.cs = "U"} ELSE ProbeValues(s)
+
 PInit ==
-    /\ \E s \in ProbeSlots : \E v \in ProbeValues(s), p \in Positions :
-         /\ stack = <<[type |-> s[1], d |-> <<>>]>>
-         /\ plan = PlanFor(s, v, p)
-         /\ info = [slot |-> s, pos |-> p]
+    /\ \/ \E s \in ProbeSlots : \E v \in ProbeValues(s), p \in Positions :
+            /\ stack = <<[type |-> s[1], d |-> <<>>]>>
+            /\ plan = PlanFor(s, v, p)
+            /\ info = [slot |-> s, pos |-> p]
+       \/ /\ WithComplex
+          /\ \E s \in ProbeSlots : s[3] \in ScalarShapes \cup ListShapes /\
+               \E v \in OneValue(s), c \in ComplexReps(s[1]) :
+                 /\ stack = <<[type |-> s[1], d |-> <<>>]>>
+                 /\ plan = SlotActs(c, ComplexValue(c)) \o SlotActs(s, v)
+                 /\ info = [slot |-> s, pos |-> "aftercomplex", after |-> c]
     /\ hist = <<>>
     /\ done = FALSE
     /\ target = 0
